@@ -220,7 +220,8 @@ class TaggedPipeline:
     the symbolic executor), the value is symbolic and flows through every stage.
     counts[i] = number of outputs element i finally yields (0/1 for filtering chains, 0..2 with flat_map)."""
 
-    def __init__(self, ty, counts, src="tslice"):
+    def __init__(self, ty, counts, src="tslice", count_calls=False):
+        self.count_calls = count_calls
         self.ty = ty
         self.counts = list(counts)
         self.src = src
@@ -231,7 +232,7 @@ class TaggedPipeline:
         return self.ty
 
     def src_ref(self):
-        return self.src == "tslice"
+        return self.src in ("tslice", "titer", "titerf")
 
     def decl(self):
         """input declaration: tags concrete, values symbolic"""
@@ -241,10 +242,13 @@ class TaggedPipeline:
         return s
 
     def par_src(self):
-        return {"tslice": "(&a[..]).into_par()", "tvec": "a.to_vec().into_par()"}[self.src]
+        return {"tslice": "(&a[..]).into_par()", "tvec": "a.to_vec().into_par()", "titer": "a.iter().par()",
+                "titerf": "a.iter().filter(|_| true).par()",
+                "tcounting": "a.iter().map(|x: &(usize, u8)| { bump(4, x.0 as u8); *x }).par()"}[self.src]
 
     def seq_src(self):
-        return {"tslice": "a.iter()", "tvec": "a.to_vec().into_iter()"}[self.src]
+        return {"tslice": "a.iter()", "tvec": "a.to_vec().into_iter()", "titer": "a.iter()", "titerf": "a.iter()",
+                "tcounting": "a.iter().map(|x: &(usize, u8)| { bump(4, x.0 as u8); *x })"}[self.src]
 
     def table(self, vals, ty="bool"):
         return "[" + ", ".join(str(v).lower() for v in vals) + "]"
@@ -263,14 +267,19 @@ class TaggedPipeline:
             pr = ""
             if probes and first:
                 pr = "probe_ref!(x as *const (usize, u8) as *const u8); " if ref else "probe_val!(); "
+            seen_fl = "flat_map" in self.ops[:si]
+            bt = "(t / 4) as u8" if seen_fl else "t as u8"
+            bx = "(x.0 / 4) as u8" if seen_fl else "x.0 as u8"
+            bump = f" bump({si}, {bt});" if self.count_calls else ""
+            bumpx = f"bump({si}, {bx}); " if self.count_calls else ""
             if op == "map":
-                out.append(("map", f"move |x: {arg_t}| {{ {pr}{get} (t, v.wrapping_add(8)) }}"))
+                out.append(("map", f"move |x: {arg_t}| {{ {pr}{get}{bump} (t, v.wrapping_add(8)) }}"))
                 first = False
             elif op == "filter":
                 # the item is still a reference to the source element if nothing mapped it yet
                 if ref and first:
                     keep = self.keep_table(si, filt_stages, per_output=False)
-                    out.append(("filter", f"move |x: &&(usize, u8)| {{ {pr.replace('x as', '*x as')}{self.table(keep)}[x.0] }}"))
+                    out.append(("filter", f"move |x: &&(usize, u8)| {{ {pr.replace('x as', '*x as')}{bumpx}{self.table(keep)}[x.0] }}"))
                 else:
                     if has_fl:
                         # tags after flat_map are 4*pos + j
@@ -278,18 +287,18 @@ class TaggedPipeline:
                         for i in range(n):
                             ks = {0: [False, False], 1: [False, True], 2: [True, True]}[c[i]]
                             keep += ks + [False, False]
-                        out.append(("filter", f"move |x: &(usize, u8)| {{ {self.table(keep)}[x.0] }}"))
+                        out.append(("filter", f"move |x: &(usize, u8)| {{ {bumpx}{self.table(keep)}[x.0] }}"))
                     else:
                         keep = self.keep_table(si, filt_stages, per_output=False)
-                        out.append(("filter", f"move |x: &(usize, u8)| {{ {self.table(keep)}[x.0] }}"))
+                        out.append(("filter", f"move |x: &(usize, u8)| {{ {bumpx}{self.table(keep)}[x.0] }}"))
             elif op == "filter_map":
                 keep = self.keep_table(si, filt_stages, per_output=False)
-                out.append(("filter_map", f"move |x: {arg_t}| {{ {pr}{get} if {self.table(keep)}[t] {{ Some((t, v ^ 0x10)) }} else {{ None }} }}"))
+                out.append(("filter_map", f"move |x: {arg_t}| {{ {pr}{get}{bump} if {self.table(keep)}[t] {{ Some((t, v ^ 0x10)) }} else {{ None }} }}"))
                 first = False
             elif op == "flat_map":
                 last = si == len(self.ops) - 1
                 fan = c if last else [2] * n
-                out.append(("flat_map", f"move |x: {arg_t}| {{ {pr}{get} [(4 * t, v), (4 * t + 1, v ^ 8)].into_iter().take({self.table(fan)}[t]) }}"))
+                out.append(("flat_map", f"move |x: {arg_t}| {{ {pr}{get}{bump} [(4 * t, v), (4 * t + 1, v ^ 8)].into_iter().take({self.table(fan)}[t]) }}"))
                 first = False
         return out
 
